@@ -747,10 +747,18 @@ func c13writers(c *Ctx) {
 	g := c.G
 	which := g.Draw(4)
 	payloads := c13payloads(g, 1+g.Draw(8))
-	core, _ := observer.New(zapcore.DebugLevel)
+	// the logger under the logging writers enables everything, or sits behind a
+	// level that is moved while payloads arrive: a payload that is logged nowhere
+	// has been accepted all the same
+	coreLevel := zap.NewAtomicLevelAt(pick(g, zapcore.DebugLevel, zapcore.DebugLevel, zapcore.InfoLevel, zapcore.ErrorLevel, zapcore.FatalLevel))
+	moving := g.Chance(3)
+	core, _ := observer.New(coreLevel)
 	lg := zap.New(core)
+	if which <= 1 && g.Chance(8) {
+		lg = zap.NewNop()
+	}
 	var w io.Writer
-	name := ""
+	name, detail := "", ""
 	switch which {
 	case 0:
 		name = "zapio.Writer"
@@ -758,6 +766,13 @@ func c13writers(c *Ctx) {
 	case 1:
 		name = "std-log bridge writer"
 		w = zap.NewStdLog(lg).Writer()
+		if g.Chance(2) {
+			at := pick(g, zapcore.DebugLevel, zapcore.InfoLevel, zapcore.WarnLevel, zapcore.ErrorLevel)
+			if sl, err := zap.NewStdLogAt(lg, at); err == nil {
+				w = sl.Writer()
+				detail = " (NewStdLogAt " + at.String() + ")"
+			}
+		}
 	case 2:
 		name = "zaptest.TestingWriter"
 		w = zaptest.NewTestingWriter(&c13T{}).WithMarkFailed(g.Chance(2))
@@ -774,9 +789,12 @@ func c13writers(c *Ctx) {
 		shapes = append(shapes, fmt.Sprintf("%q", clip(p)))
 		c.MixState(uint64(len(p))<<8 | uint64(which))
 	}
-	c.Describe("member=writers writer=%s payloads=[%s]", name, strings.Join(shapes, ","))
+	c.Describe("member=writers writer=%s%s logger-level=%s moving=%v payloads=[%s]", name, detail, coreLevel.Level(), moving, strings.Join(shapes, ","))
 	c.Nontrivial = len(payloads) >= 2
 	for i, p := range payloads {
+		if moving && g.Chance(3) {
+			coreLevel.SetLevel(pick(g, zapcore.DebugLevel, zapcore.WarnLevel, zapcore.ErrorLevel, zapcore.FatalLevel))
+		}
 		orig := append([]byte(nil), p...)
 		n, err := w.Write(p)
 		if !bytes.Equal(p, orig) {
